@@ -165,6 +165,8 @@ class Elab:
         if isinstance(cls, tuple):
             return any(self.isinstance_(v, k) for k in cls)
         if isinstance(cls, type):
+            if cls is ast.AST and isinstance(v, ObjV):
+                return 'AST' in self.base_names(v.cinfo)
             if cls is int:
                 return isinstance(v, int) and not isinstance(v, bool) or isinstance(v, bool)
             return isinstance(v, cls)
@@ -197,18 +199,30 @@ class Elab:
                 return v.attrs[name]
             m = self.facts.lookup(v.cinfo, name)
             if m is not None:
+                decos = {norm(d) for d in m.decorator_list}
+                if 'staticmethod' in decos or (m.args.args[:1] and m.args.args[0].arg not in ('self', 'cls') and not m.args.args[0].arg.startswith('self')
+                                               and name not in ('__init__',) and 'classmethod' not in decos and False):
+                    return FuncRef(m, self.facts.owner(v.cinfo, name), None)
+                if 'classmethod' in decos:
+                    return FuncRef(m, self.facts.owner(v.cinfo, name), ClassRef(v.cinfo))
                 return FuncRef(m, self.facts.owner(v.cinfo, name), v)
             ok, d, k = self.class_attr(v.cinfo, name)
             if ok:
                 return d[name]
             if name == '__class__':
                 return ClassRef(v.cinfo)
+            if name in ('visit', 'generic_visit') and self.is_visitor(v.cinfo):
+                return ('visitor', v, name)
+            if name == '__dict__':
+                return v.attrs
             raise PyExc('AttributeError', '%s has no attribute %s' % (v.cinfo.name, name))
         if isinstance(v, ClassRef):
             if name == '__name__':
                 return v.cinfo.name
             m = self.facts.lookup(v.cinfo, name)
             if m is not None:
+                if 'classmethod' in {norm(d) for d in m.decorator_list}:
+                    return FuncRef(m, self.facts.owner(v.cinfo, name), v)
                 return FuncRef(m, self.facts.owner(v.cinfo, name), None)
             ok, d, k = self.class_attr(v.cinfo, name)
             if ok:
@@ -225,7 +239,20 @@ class Elab:
                     return FuncRef(k.methods[name], k, v.obj)
             if name == '__init__':
                 return FuncRef(None, None, v.obj)
+            if name in ('visit', 'generic_visit') and self.is_visitor(v.obj.cinfo):
+                return ('visitor', v.obj, name)
             raise PyExc('AttributeError', 'super has no %s' % name)
+        if isinstance(v, ModuleRef) and v.name in ('ast', 'astunparse', 'textwrap', 'inspect', 'copy'):
+            return self.bridge_module_attr(v.name, name)
+        if isinstance(v, ast.AST) or (isinstance(v, type) and issubclass(v, ast.AST)):
+            try:
+                return getattr(v, name)
+            except AttributeError:
+                raise PyExc('AttributeError', "'%s' object has no attribute '%s'" % (type(v).__name__, name))
+        if isinstance(v, type) and name in ('__name__', '__qualname__'):
+            return v.__name__
+        if v in (ast.NodeTransformer, ast.NodeVisitor) and name in ('visit', 'generic_visit'):
+            return ('visitor_unbound', name)
         if isinstance(v, ModuleRef):
             if v.name == 'math':
                 return ('mathfn', name) if name not in ('pi', 'e', 'inf') else getattr(math, name)
@@ -276,12 +303,216 @@ class Elab:
                 raise PyExc('ValueError', str(e))
         if isinstance(f, tuple) and f and f[0] == 'builtin':
             return self.builtin(f[1], args, kwargs, frame)
+        if isinstance(f, tuple) and f and f[0] == 'visitor':
+            return self.visitor_call(f[1], f[2], args)
+        if isinstance(f, tuple) and f and f[0] == 'visitor_unbound':
+            return self.visitor_call(args[0], f[1], args[1:])
+        if isinstance(f, tuple) and f and f[0] == 'bridge':
+            return self.bridge_call(f[1], args, kwargs)
+        if isinstance(f, type) and issubclass(f, ast.AST):
+            return f(*args, **kwargs)
         if isinstance(f, type):
             try:
                 return f(*args)
             except (ValueError, TypeError) as e:
                 raise PyExc('ValueError', str(e))
         raise ElabError('call of %r' % (f,))
+
+    # ------------------------------------------------------------------ ast / inspect bridge
+    def base_names(self, cinfo):
+        out = set()
+        for k in self.mro(cinfo):
+            out.update(k.bases)
+        return out
+
+    def is_visitor(self, cinfo):
+        return bool(self.base_names(cinfo) & {'NodeTransformer', 'NodeVisitor'})
+
+    def is_astnode(self, v):
+        return isinstance(v, ast.AST) or (isinstance(v, ObjV) and 'AST' in self.base_names(v.cinfo))
+
+    def node_classname(self, v):
+        return v.cinfo.name if isinstance(v, ObjV) else type(v).__name__
+
+    def iter_fields(self, node):
+        if isinstance(node, ObjV):
+            if '_fields' in node.attrs:
+                fields = node.attrs['_fields']
+            else:
+                ok, d, k = self.class_attr(node.cinfo, '_fields')
+                fields = d['_fields'] if ok else ()
+            return [(f, node.attrs[f]) for f in fields if f in node.attrs]
+        return [(f, getattr(node, f)) for f in node._fields if hasattr(node, f)]
+
+    def set_field(self, node, f, v):
+        if isinstance(node, ObjV):
+            node.attrs[f] = v
+        else:
+            setattr(node, f, v)
+
+    def del_field(self, node, f):
+        if isinstance(node, ObjV):
+            node.attrs.pop(f, None)
+        else:
+            try:
+                delattr(node, f)
+            except AttributeError:
+                pass
+
+    def visitor_call(self, vis, name, args):
+        node = args[0]
+        if name == 'visit':
+            mname = 'visit_' + self.node_classname(node)
+            m = self.facts.lookup(vis.cinfo, mname)
+            if m is not None:
+                return self.call_function(m, self.facts.owner(vis.cinfo, mname), [vis, node], {})
+            return self.visitor_call(vis, 'generic_visit', [node])
+        transformer = 'NodeTransformer' in self.base_names(vis.cinfo)
+        if not self.is_astnode(node):
+            raise ElabError('generic_visit on %r' % type(node).__name__)
+        visit = self.getattr_(vis, 'visit')
+        for f, old in self.iter_fields(node):
+            if isinstance(old, list):
+                new = []
+                for x in old:
+                    if self.is_astnode(x):
+                        r = self.call(visit, [x], {}, {})
+                        if not transformer:
+                            continue
+                        if r is None:
+                            continue
+                        if isinstance(r, list):
+                            new.extend(r)
+                            continue
+                        x = r
+                    new.append(x)
+                if transformer:
+                    old[:] = new
+            elif self.is_astnode(old):
+                r = self.call(visit, [old], {}, {})
+                if transformer:
+                    if r is None:
+                        self.del_field(node, f)
+                    else:
+                        self.set_field(node, f, r)
+        return node if transformer else None
+
+    def walk_nodes(self, node):
+        out = []
+        todo = [node]
+        while todo:
+            n = todo.pop(0)
+            out.append(n)
+            for f, v in self.iter_fields(n):
+                if isinstance(v, list):
+                    todo.extend(x for x in v if self.is_astnode(x))
+                elif self.is_astnode(v):
+                    todo.append(v)
+        return out
+
+    def bridge_module_attr(self, mod, name):
+        if mod == 'ast':
+            if name in ('walk', 'iter_fields', 'iter_child_nodes', 'copy_location', 'fix_missing_locations', 'parse', 'unparse', 'dump', 'increment_lineno', 'get_docstring', 'literal_eval'):
+                return ('bridge', 'ast.' + name)
+            if hasattr(ast, name):
+                return getattr(ast, name)
+            raise PyExc('AttributeError', 'module ast has no attribute %s' % name)
+        if mod == 'astunparse':
+            if name == 'unparse':
+                return ('bridge', 'ast.unparse')
+        if mod == 'textwrap' and name in ('dedent', 'indent'):
+            return ('bridge', 'textwrap.' + name)
+        if mod == 'inspect' and name in ('getsource', 'getmembers', 'ismethod', 'isfunction', 'getsourcelines'):
+            return ('bridge', 'inspect.' + name)
+        if mod == 'copy' and name in ('deepcopy', 'copy'):
+            return ('bridge', 'copy.' + name)
+        raise ElabError('module attribute %s.%s' % (mod, name))
+
+    def source_of(self, f):
+        if not isinstance(f, FuncRef) or f.fn is None:
+            raise ElabError('getsource of %r' % (f,))
+        rel = f.cinfo.rel if f.cinfo is not None else f.rel
+        lines = self.facts.sm.text(rel).splitlines(True)
+        fn = f.fn
+        start = min([fn.lineno] + [d.lineno for d in fn.decorator_list])
+        return ''.join(lines[start - 1:fn.end_lineno])
+
+    def bridge_call(self, name, args, kwargs):
+        import textwrap
+        import copy as _copy
+        if name == 'ast.parse':
+            try:
+                return ast.parse(args[0])
+            except SyntaxError as e:
+                raise PyExc('SyntaxError', str(e))
+        if name == 'ast.unparse':
+            try:
+                return ast.unparse(args[0]) if isinstance(args[0], ast.AST) else repr(args[0])
+            except Exception:
+                return '<ast>'
+        if name == 'ast.dump':
+            try:
+                return ast.dump(args[0])
+            except Exception:
+                return '<ast>'
+        if name == 'ast.walk':
+            return self.walk_nodes(args[0])
+        if name == 'ast.iter_fields':
+            return [tuple(x) for x in self.iter_fields(args[0])]
+        if name == 'ast.iter_child_nodes':
+            out = []
+            for f, v in self.iter_fields(args[0]):
+                if isinstance(v, list):
+                    out.extend(x for x in v if self.is_astnode(x))
+                elif self.is_astnode(v):
+                    out.append(v)
+            return out
+        if name in ('ast.copy_location', 'ast.fix_missing_locations', 'ast.increment_lineno'):
+            return args[0]
+        if name == 'ast.get_docstring':
+            try:
+                return ast.get_docstring(args[0])
+            except Exception:
+                return None
+        if name == 'ast.literal_eval':
+            try:
+                return ast.literal_eval(args[0])
+            except Exception as e:
+                raise PyExc('ValueError', str(e))
+        if name == 'textwrap.dedent':
+            return textwrap.dedent(args[0])
+        if name == 'textwrap.indent':
+            return textwrap.indent(*args)
+        if name == 'inspect.getsource':
+            return self.source_of(args[0])
+        if name == 'inspect.getsourcelines':
+            return (self.source_of(args[0]).splitlines(True), 0)
+        if name == 'inspect.getmembers':
+            obj = args[0]
+            if not isinstance(obj, ObjV):
+                raise ElabError('getmembers of non-object')
+            out = []
+            seen = set()
+            for k in self.mro(obj.cinfo):
+                for mn, m in k.methods.items():
+                    if mn not in seen:
+                        seen.add(mn)
+                        out.append((mn, FuncRef(m, k, obj)))
+            return sorted(out, key=lambda x: x[0])
+        if name in ('inspect.ismethod', 'inspect.isfunction'):
+            return isinstance(args[0], FuncRef)
+        if name in ('copy.deepcopy', 'copy.copy'):
+            v = args[0]
+            if isinstance(v, ast.AST) and all(isinstance(n, ast.AST) for n in ast.walk(v)):
+                return _copy.deepcopy(v)
+            if isinstance(v, (int, str, float, bool, type(None))):
+                return v
+            if isinstance(v, list):
+                return [self.bridge_call(name, [x], {}) if name == 'copy.deepcopy' else x for x in v]
+            if isinstance(v, dict):
+                return dict(v)
+            raise ElabError('copy of %s' % type(v).__name__)
+        raise ElabError('bridge ' + name)
 
     def native_method(self, recv, name, args, kwargs):
         if isinstance(recv, list) and name in ('append', 'extend', 'reverse', 'copy', 'insert', 'pop', 'index', 'remove', 'count', 'clear', 'sort'):
@@ -310,6 +541,8 @@ class Elab:
     def strable(self, v):
         if isinstance(v, (ObjV, ClassRef)):
             return repr(v)
+        if isinstance(v, ast.AST):
+            return '<ast.%s>' % type(v).__name__
         return v
 
     def builtin(self, name, args, kwargs, frame):
@@ -351,6 +584,8 @@ class Elab:
                 return True
             except PyExc:
                 return False
+            except ElabError:
+                return False
         if name == 'getattr':
             try:
                 return self.getattr_(args[0], args[1])
@@ -381,6 +616,30 @@ class Elab:
             return repr(self.strable(args[0]))
         if name == 'format':
             return format(self.strable(args[0]), *args[1:])
+        if name == 'eval':
+            # only constant expressions over builtins (the transpiler folds calls with constant arguments)
+            try:
+                t = ast.parse(str(args[0]).strip(), mode='eval')
+            except SyntaxError as e:
+                raise PyExc('SyntaxError', str(e))
+            return self.eval(t.body, {'__rel__': None, '__nomod__': True})
+        if name == 'next':
+            it = args[0]
+            if isinstance(it, (list, tuple)):
+                if it:
+                    return it[0]
+                if len(args) > 1:
+                    return args[1]
+                raise PyExc('StopIteration', '')
+            raise ElabError('next on %s' % type(it).__name__)
+        if name == 'iter':
+            return list(args[0])
+        if name == 'delattr':
+            if isinstance(args[0], ObjV):
+                args[0].attrs.pop(args[1], None)
+            elif isinstance(args[0], ast.AST):
+                delattr(args[0], args[1])
+            return None
         if name == 'any':
             return any(args[0])
         if name == 'all':
@@ -599,6 +858,8 @@ class Elab:
                     d[t.attr] = v
                 else:
                     self.class_attrs.setdefault((o.cinfo.rel, o.cinfo.name), {})[t.attr] = v
+            elif isinstance(o, ast.AST):
+                setattr(o, t.attr, v)
             else:
                 raise ElabError('attribute store on %s' % type(o).__name__)
         elif isinstance(t, ast.Subscript):
@@ -683,13 +944,13 @@ class Elab:
             fr = [(r, f) for (r, n), f in self.facts.functions.items() if n == e.id]
             if fr:
                 return FuncRef(fr[0][1], None, None, fr[0][0])
-            if e.id in ('math', 'py4hw'):
+            if e.id in ('math', 'py4hw', 'ast', 'astunparse', 'textwrap', 'inspect', 'copy'):
                 return ModuleRef(e.id)
             if e.id in ('True', 'False', 'None'):
                 return {'True': True, 'False': False, 'None': None}[e.id]
             if e.id in ('len', 'range', 'enumerate', 'zip', 'reversed', 'sorted', 'int', 'float', 'str', 'bool', 'list', 'tuple', 'abs', 'min', 'max', 'sum', 'round',
                         'pow', 'divmod', 'hex', 'bin', 'ord', 'chr', 'dict', 'print', 'isinstance', 'type', 'hasattr', 'getattr', 'setattr', 'callable', 'id',
-                        'super', 'Exception', 'any', 'all', 'set', 'frozenset', 'repr', 'iter', 'next', 'format', 'map', 'filter'):
+                        'super', 'Exception', 'any', 'all', 'set', 'frozenset', 'repr', 'iter', 'next', 'format', 'map', 'filter', 'delattr', 'TranspilationException', 'eval'):
                 return ('builtin', e.id)
             raise PyExc('NameError', "name '%s' is not defined" % e.id)
         if isinstance(e, ast.Attribute):
